@@ -50,7 +50,7 @@ def main():
                                                n_jobs=[1, 2, 3], extra_col=[False, True],
                                                cand_index=[None, [5, 5, 2]], bound_method=[True])))
     if not quick:
-        ck.e2('four-rows', h_cand.make(dict(base, nl=2, nr=2, ncand=[4], missing='sym', tokenizer=[True, False],
+        ck.e2('four-rows', h_cand.make(dict(base, nl=2, nr=1, ncand=[4], missing='sym', tokenizer=[True, False],
                                             comp_ops=['>=', '='], allow_missing=[False, True],
                                             out_sim_score=[True], out_attrs=[(None, None)],
                                             n_jobs=[1, 2, 4], extra_col=[False], bound_method=[False])))
